@@ -120,8 +120,8 @@ EXPORT rsize_t _wcsnlen_s_chk(const wchar_t *str, rsize_t smax, size_t strbos)
         /* Dont touch past strbos */
         for (z = str; smax && *str != 0; smax--, str++) {
             strbos -= sizeof(wchar_t);
-            if (unlikely(strbos <= 0))
-                return smax ? (rsize_t)(str - z) : orig_smax;
+            if (unlikely(strbos <= 0)) /* *str was the last element of the object */
+                return (rsize_t)(str - z) + 1;
         }
     } else {
         for (z = str; smax && *str != 0; smax--, str++)
